@@ -1,6 +1,7 @@
 import SleapVerif.Lemmas.TrackerHistory
 import SleapVerif.Lemmas.TrackFeatures
 import SleapVerif.Lemmas.TrackerHungarian
+import Mathlib.Data.List.Sort
 /-!
 # C10 — well-separated animals keep their identity
 
@@ -355,74 +356,143 @@ theorem euclid_dominance (T : Transc R) (a f g f' : R × R) (μ σ : R) (hμσ :
     scoreEuclid T.sqrt g f' < scoreEuclid T.sqrt a f :=
   TrackFeatures.euclid_dominance T a f g f' μ σ hμσ hown hfar
 
-/-- the geometric class for bboxes+iou gives the scene class (separation discharged) -/
-theorem iou_scene_class (who : Box R → Nat) (thr : R) (cands : Nat → List (Box R)) (m : Nat)
-    (cur : List (Box R × R)) (h : IouFrame who thr cands m cur) :
-    SceneFrame who scoreIou thr cands m cur := sceneFrame_of_iou who thr cands m cur h
+/-- the geometric class for bboxes+iou gives the scene class (separation discharged); features are
+    any `φ` with a projection `π` to the box (e.g. `φ := Box R × Tag`), so `who` is not a function of
+    the coordinates -/
+theorem iou_scene_class {φ : Type} (π : φ → Box R) (who : φ → Nat) (thr : R) (cands : Nat → List φ)
+    (m : Nat) (cur : List (φ × R)) (h : IouFrame π who thr cands m cur) :
+    SceneFrame who (fun a b => scoreIou (π a) (π b)) thr cands m cur :=
+  sceneFrame_of_iou π who thr cands m cur h
 
 /-- the geometric class for centroids+euclidean_dist gives the scene class -/
-theorem euclid_scene_class (T : Transc R) (μ σ : R) (who : R × R → Nat) (thr : R)
-    (cands : Nat → List (R × R)) (m : Nat) (cur : List ((R × R) × R))
-    (h : EuclidFrame T μ σ who thr cands m cur) :
-    SceneFrame who (scoreEuclid T.sqrt) thr cands m cur := sceneFrame_of_euclid T μ σ who thr cands m cur h
+theorem euclid_scene_class {φ : Type} (T : Transc R) (μ σ : R) (π : φ → R × R) (who : φ → Nat) (thr : R)
+    (cands : Nat → List φ) (m : Nat) (cur : List (φ × R))
+    (h : EuclidFrame T μ σ π who thr cands m cur) :
+    SceneFrame who (fun a b => scoreEuclid T.sqrt (π a) (π b)) thr cands m cur :=
+  sceneFrame_of_euclid T μ σ π who thr cands m cur h
+
+section geoHeadlines
+variable {φ : Type}
 
 /-- **headline for bboxes + iou, geometry only** (fixed window, greedy): overlap with the own
     stored boxes and ≥ 1 px gaps to foreign ones on every frame ⇒ identities are preserved -/
-theorem identity_preserved_fw_greedy_iou (cfg : Config R) (hfx : cfg.fx = Fixes.repaired)
-    (hg : cfg.matcher = .greedy) (ext : Ext R) (hext : ExtOk ext) (hsort : ArgsortSorted ext)
-    (who : Box R → Nat) (frames : List (List (Box R × R)))
-    (hcl : FW.InClassWith (IouFrame who cfg.thr) cfg ext scoreIou FW.empty frames) :
-    ∃ s' outs owner, run (FW.step cfg ext scoreIou) FW.empty frames = .ok (s', outs) ∧
+theorem identity_preserved_fw_greedy_iou (π : φ → Box R) (cfg : Config R)
+    (hfx : cfg.fx = Fixes.repaired) (hg : cfg.matcher = .greedy) (ext : Ext R) (hext : ExtOk ext)
+    (hsort : ArgsortSorted ext) (who : φ → Nat) (frames : List (List (φ × R)))
+    (hcl : FW.InClassWith (IouFrame π who cfg.thr) cfg ext (fun a b => scoreIou (π a) (π b)) FW.empty frames) :
+    ∃ s' outs owner, run (FW.step cfg ext (fun a b => scoreIou (π a) (π b))) FW.empty frames = .ok (s', outs) ∧
       InjOn owner s'.tracks.length ∧
       List.Forall₂ (FrameOwned who owner s'.tracks.length) frames outs :=
-  identity_preserved_fw_greedy cfg hfx hg ext hext hsort scoreIou who frames
-    (FW.inClass_of_with _ cfg ext scoreIou who (fun c m cur h => sceneFrame_of_iou who cfg.thr c m cur h)
+  identity_preserved_fw_greedy cfg hfx hg ext hext hsort _ who frames
+    (FW.inClass_of_with _ cfg ext _ who (fun c m cur h => sceneFrame_of_iou π who cfg.thr c m cur h)
       frames FW.empty hcl)
 
-theorem identity_preserved_lq_greedy_iou (cfg : Config R) (hfx : cfg.fx = Fixes.repaired)
-    (hw : 0 < cfg.window) (hg : cfg.matcher = .greedy) (ext : Ext R) (hext : ExtOk ext)
-    (hsort : ArgsortSorted ext) (who : Box R → Nat) (frames : List (List (Box R × R)))
-    (hcl : LQ.InClassWith (IouFrame who cfg.thr) cfg ext scoreIou LQ.empty frames) :
-    ∃ s' outs owner, run (LQ.step cfg ext scoreIou) LQ.empty frames = .ok (s', outs) ∧
+theorem identity_preserved_lq_greedy_iou (π : φ → Box R) (cfg : Config R)
+    (hfx : cfg.fx = Fixes.repaired) (hw : 0 < cfg.window) (hg : cfg.matcher = .greedy) (ext : Ext R)
+    (hext : ExtOk ext) (hsort : ArgsortSorted ext) (who : φ → Nat) (frames : List (List (φ × R)))
+    (hcl : LQ.InClassWith (IouFrame π who cfg.thr) cfg ext (fun a b => scoreIou (π a) (π b)) LQ.empty frames) :
+    ∃ s' outs owner, run (LQ.step cfg ext (fun a b => scoreIou (π a) (π b))) LQ.empty frames = .ok (s', outs) ∧
       InjOn owner s'.tracks.length ∧
       List.Forall₂ (FrameOwned who owner s'.tracks.length) frames outs :=
-  identity_preserved_lq_greedy cfg hfx hw hg ext hext hsort scoreIou who frames
-    (LQ.inClass_of_with _ cfg ext scoreIou who (fun c m cur h => sceneFrame_of_iou who cfg.thr c m cur h)
+  identity_preserved_lq_greedy cfg hfx hw hg ext hext hsort _ who frames
+    (LQ.inClass_of_with _ cfg ext _ who (fun c m cur h => sceneFrame_of_iou π who cfg.thr c m cur h)
+      frames LQ.empty hcl)
+
+theorem identity_preserved_fw_hungarian_iou (π : φ → Box R) (cfg : Config R)
+    (hfx : cfg.fx = Fixes.repaired) (hh : cfg.matcher = .hungarian) (ext : Ext R) (hext : ExtOk ext)
+    (hopt : LsaOptimal ext) (who : φ → Nat) (frames : List (List (φ × R)))
+    (hcl : FW.InClassWith (IouFrame π who cfg.thr) cfg ext (fun a b => scoreIou (π a) (π b)) FW.empty frames) :
+    ∃ s' outs owner, run (FW.step cfg ext (fun a b => scoreIou (π a) (π b))) FW.empty frames = .ok (s', outs) ∧
+      InjOn owner s'.tracks.length ∧
+      List.Forall₂ (FrameOwned who owner s'.tracks.length) frames outs :=
+  identity_preserved_fw_hungarian cfg hfx hh ext hext hopt _ who frames
+    (FW.inClass_of_with _ cfg ext _ who (fun c m cur h => sceneFrame_of_iou π who cfg.thr c m cur h)
+      frames FW.empty hcl)
+
+theorem identity_preserved_lq_hungarian_iou (π : φ → Box R) (cfg : Config R)
+    (hfx : cfg.fx = Fixes.repaired) (hw : 0 < cfg.window) (hh : cfg.matcher = .hungarian) (ext : Ext R)
+    (hext : ExtOk ext) (hopt : LsaOptimal ext) (who : φ → Nat) (frames : List (List (φ × R)))
+    (hcl : LQ.InClassWith (IouFrame π who cfg.thr) cfg ext (fun a b => scoreIou (π a) (π b)) LQ.empty frames) :
+    ∃ s' outs owner, run (LQ.step cfg ext (fun a b => scoreIou (π a) (π b))) LQ.empty frames = .ok (s', outs) ∧
+      InjOn owner s'.tracks.length ∧
+      List.Forall₂ (FrameOwned who owner s'.tracks.length) frames outs :=
+  identity_preserved_lq_hungarian cfg hfx hw hh ext hext hopt _ who frames
+    (LQ.inClass_of_with _ cfg ext _ who (fun c m cur h => sceneFrame_of_iou π who cfg.thr c m cur h)
       frames LQ.empty hcl)
 
 /-- **headline for centroids + euclidean_dist, geometry only** (motion < ½ separation) -/
-theorem identity_preserved_fw_greedy_euclid (T : Transc R) (μ σ : R) (cfg : Config R)
+theorem identity_preserved_fw_greedy_euclid (T : Transc R) (μ σ : R) (π : φ → R × R) (cfg : Config R)
     (hfx : cfg.fx = Fixes.repaired) (hg : cfg.matcher = .greedy) (ext : Ext R) (hext : ExtOk ext)
-    (hsort : ArgsortSorted ext) (who : R × R → Nat) (frames : List (List ((R × R) × R)))
-    (hcl : FW.InClassWith (EuclidFrame T μ σ who cfg.thr) cfg ext (scoreEuclid T.sqrt) FW.empty frames) :
-    ∃ s' outs owner, run (FW.step cfg ext (scoreEuclid T.sqrt)) FW.empty frames = .ok (s', outs) ∧
-      InjOn owner s'.tracks.length ∧
+    (hsort : ArgsortSorted ext) (who : φ → Nat) (frames : List (List (φ × R)))
+    (hcl : FW.InClassWith (EuclidFrame T μ σ π who cfg.thr) cfg ext
+      (fun a b => scoreEuclid T.sqrt (π a) (π b)) FW.empty frames) :
+    ∃ s' outs owner, run (FW.step cfg ext (fun a b => scoreEuclid T.sqrt (π a) (π b))) FW.empty frames
+        = .ok (s', outs) ∧ InjOn owner s'.tracks.length ∧
       List.Forall₂ (FrameOwned who owner s'.tracks.length) frames outs :=
-  identity_preserved_fw_greedy cfg hfx hg ext hext hsort (scoreEuclid T.sqrt) who frames
+  identity_preserved_fw_greedy cfg hfx hg ext hext hsort _ who frames
     (FW.inClass_of_with _ cfg ext _ who
-      (fun c m cur h => sceneFrame_of_euclid T μ σ who cfg.thr c m cur h) frames FW.empty hcl)
+      (fun c m cur h => sceneFrame_of_euclid T μ σ π who cfg.thr c m cur h) frames FW.empty hcl)
 
-theorem identity_preserved_lq_greedy_euclid (T : Transc R) (μ σ : R) (cfg : Config R)
+theorem identity_preserved_lq_greedy_euclid (T : Transc R) (μ σ : R) (π : φ → R × R) (cfg : Config R)
     (hfx : cfg.fx = Fixes.repaired) (hw : 0 < cfg.window) (hg : cfg.matcher = .greedy) (ext : Ext R)
-    (hext : ExtOk ext) (hsort : ArgsortSorted ext) (who : R × R → Nat)
-    (frames : List (List ((R × R) × R)))
-    (hcl : LQ.InClassWith (EuclidFrame T μ σ who cfg.thr) cfg ext (scoreEuclid T.sqrt) LQ.empty frames) :
-    ∃ s' outs owner, run (LQ.step cfg ext (scoreEuclid T.sqrt)) LQ.empty frames = .ok (s', outs) ∧
-      InjOn owner s'.tracks.length ∧
+    (hext : ExtOk ext) (hsort : ArgsortSorted ext) (who : φ → Nat) (frames : List (List (φ × R)))
+    (hcl : LQ.InClassWith (EuclidFrame T μ σ π who cfg.thr) cfg ext
+      (fun a b => scoreEuclid T.sqrt (π a) (π b)) LQ.empty frames) :
+    ∃ s' outs owner, run (LQ.step cfg ext (fun a b => scoreEuclid T.sqrt (π a) (π b))) LQ.empty frames
+        = .ok (s', outs) ∧ InjOn owner s'.tracks.length ∧
       List.Forall₂ (FrameOwned who owner s'.tracks.length) frames outs :=
-  identity_preserved_lq_greedy cfg hfx hw hg ext hext hsort (scoreEuclid T.sqrt) who frames
+  identity_preserved_lq_greedy cfg hfx hw hg ext hext hsort _ who frames
     (LQ.inClass_of_with _ cfg ext _ who
-      (fun c m cur h => sceneFrame_of_euclid T μ σ who cfg.thr c m cur h) frames LQ.empty hcl)
+      (fun c m cur h => sceneFrame_of_euclid T μ σ π who cfg.thr c m cur h) frames LQ.empty hcl)
 
-/-- NOT PROVED (kept visible): the OKS bridging lemma.  For poses `a` (detection), `f` (own stored)
-    and `f'` (foreign stored) with the same visible nodes, if every keypoint of `a` is closer to the
-    corresponding keypoint of `f` than to that of `f'`, then `oks a f' < oks a f`
-    (monotonicity of `exp`; `Oks.oks` is C15's model of `compute_oks`).  The harness measures the
-    OKS separation margin per frame instead. -/
+theorem identity_preserved_fw_hungarian_euclid (T : Transc R) (μ σ : R) (π : φ → R × R) (cfg : Config R)
+    (hfx : cfg.fx = Fixes.repaired) (hh : cfg.matcher = .hungarian) (ext : Ext R) (hext : ExtOk ext)
+    (hopt : LsaOptimal ext) (who : φ → Nat) (frames : List (List (φ × R)))
+    (hcl : FW.InClassWith (EuclidFrame T μ σ π who cfg.thr) cfg ext
+      (fun a b => scoreEuclid T.sqrt (π a) (π b)) FW.empty frames) :
+    ∃ s' outs owner, run (FW.step cfg ext (fun a b => scoreEuclid T.sqrt (π a) (π b))) FW.empty frames
+        = .ok (s', outs) ∧ InjOn owner s'.tracks.length ∧
+      List.Forall₂ (FrameOwned who owner s'.tracks.length) frames outs :=
+  identity_preserved_fw_hungarian cfg hfx hh ext hext hopt _ who frames
+    (FW.inClass_of_with _ cfg ext _ who
+      (fun c m cur h => sceneFrame_of_euclid T μ σ π who cfg.thr c m cur h) frames FW.empty hcl)
+
+theorem identity_preserved_lq_hungarian_euclid (T : Transc R) (μ σ : R) (π : φ → R × R) (cfg : Config R)
+    (hfx : cfg.fx = Fixes.repaired) (hw : 0 < cfg.window) (hh : cfg.matcher = .hungarian) (ext : Ext R)
+    (hext : ExtOk ext) (hopt : LsaOptimal ext) (who : φ → Nat) (frames : List (List (φ × R)))
+    (hcl : LQ.InClassWith (EuclidFrame T μ σ π who cfg.thr) cfg ext
+      (fun a b => scoreEuclid T.sqrt (π a) (π b)) LQ.empty frames) :
+    ∃ s' outs owner, run (LQ.step cfg ext (fun a b => scoreEuclid T.sqrt (π a) (π b))) LQ.empty frames
+        = .ok (s', outs) ∧ InjOn owner s'.tracks.length ∧
+      List.Forall₂ (FrameOwned who owner s'.tracks.length) frames outs :=
+  identity_preserved_lq_hungarian cfg hfx hw hh ext hext hopt _ who frames
+    (LQ.inClass_of_with _ cfg ext _ who
+      (fun c m cur h => sceneFrame_of_euclid T μ σ π who cfg.thr c m cur h) frames LQ.empty hcl)
+
+end geoHeadlines
+
+/-- NOT PROVED (kept visible): the OKS bridging lemma, with the hypotheses the audit showed to be
+    necessary.  For poses `a` (detection), `f` (own stored) and `f'` (foreign stored) with the **same
+    visible nodes** and a detection pose of **positive bounding-box area** (`compute_oks` divides by
+    `2·(area + ε)·(2·0.025)²`), if every keypoint of `a` is closer to the corresponding keypoint of `f`
+    than to that of `f'`, then `oks a f' < oks a f` (monotonicity of `exp`).  With area 0 the real-number
+    statement still holds (ε > 0) but the float evaluation underflows to exactly 0 for any non-zero
+    displacement, own and foreign alike: finding F-C10c, see `oks_zero_area_counterexample`. -/
 def oks_dominance (score : List (Oks.Pt R) → List (Oks.Pt R) → R) : Prop :=
   ∀ a f f' : List (Oks.Pt R),
+    (∃ s, Oks.area a = some s ∧ 0 < s) →
+    (∀ i : Nat, ((a[i]? >>= Oks.vis).isSome ↔ (f[i]? >>= Oks.vis).isSome) ∧
+      ((a[i]? >>= Oks.vis).isSome ↔ (f'[i]? >>= Oks.vis).isSome)) →
     (∀ i : Nat, ∀ pa ∈ (a[i]? >>= Oks.vis), ∀ pf ∈ (f[i]? >>= Oks.vis), ∀ pf' ∈ (f'[i]? >>= Oks.vis),
       Oks.d2 pa pf < Oks.d2 pa pf') → score a f' < score a f
+
+/-- F-C10c at model level: an axis-aligned collinear pose (`hline`) and a single visible keypoint
+    have bounding-box area 0 in C15's model of `compute_instance_area` — the quantity `compute_oks`
+    scales by; the positive-area hypothesis of `oks_dominance` fails exactly there. -/
+theorem oks_zero_area_counterexample :
+    Oks.area ([(some 10, some 10), (some 26, some 10), (some 18, some 10)] : List (Oks.Pt Rat)) = some 0 ∧
+    Oks.area ([(some 10, some 10), (none, none), (none, none)] : List (Oks.Pt Rat)) = some 0 := by
+  constructor <;> decide +kernel
 
 end geometry
 
@@ -456,48 +526,131 @@ example :
     · exact ⟨(1, 0), by simp, Or.inl h.symm⟩
 
 
-/-- a two-frame history of the class (two animals, detection order swapped on the second frame,
-    score = −distance, animals left / right of x = 30): the hypothesis `FW.InClass` of
-    `identity_preserved_fw_greedy` is satisfiable -/
-example :
-    FW.InClass (⟨3, 0, .greedy, .mean, Fixes.repaired⟩ : Config Rat) ⟨fun _ => [], fun _ => []⟩
-      (fun (a b : Int) => -((Int.natAbs (a - b) : Nat) : Rat)) (fun a => if a < 30 then 0 else 1)
-      FW.empty [[((10 : Int), (1 : Rat)), (50, 1)], [(51, 1), (11, 1)]] := by
-  have hstep : FW.step (⟨3, 0, .greedy, .mean, Fixes.repaired⟩ : Config Rat) ⟨fun _ => [], fun _ => []⟩
-      (fun (a b : Int) => -((Int.natAbs (a - b) : Nat) : Rat)) FW.empty
-      [((10 : Int), (1 : Rat)), (50, 1)] =
-      .ok (⟨[⟨[10, 50], [some 0, some 1]⟩], [0, 1]⟩, [some 0, some 1]) := by decide
-  have c0 : FW.cands (⟨[⟨[10, 50], [some 0, some 1]⟩], [0, 1]⟩ : FW Int) 0 = [10] := by decide
-  have c1 : FW.cands (⟨[⟨[10, 50], [some 0, some 1]⟩], [0, 1]⟩ : FW Int) 1 = [50] := by decide
-  refine ⟨⟨by decide, by simp, by simp [FW.empty], ?_, ?_, ?_⟩, ?_⟩
-  · intro d _ _ t ht; simp [FW.empty] at ht
-  · intro d _ t t' ht; simp [FW.empty] at ht
-  · intro d _ d' _ t ht; simp [FW.empty] at ht
-  · intro s' ids h
-    rw [hstep] at h
-    injection h with h; injection h with h1 h2; subst h1; subst h2
-    have two : ∀ t, t < 2 → t = 0 ∨ t = 1 := by intro t h; omega
-    refine ⟨⟨by decide, by simp, ?_, ?_, ?_, ?_⟩, fun _ _ _ => trivial⟩
-    · intro t ht
-      rcases two t ht with h | h <;> subst h <;> simp [c0, c1]
-    · intro d hd hnew
-      -- both detections are known animals: the premise is contradictory
-      exfalso
-      simp only [List.mem_cons, List.not_mem_nil, or_false] at hd
-      rcases hd with hd | hd <;> subst hd
-      · exact hnew 1 (by decide) 50 (by simp [c1]) (by decide)
-      · exact hnew 0 (by decide) 10 (by simp [c0]) (by decide)
-    · intro d hd t t' ht ht' f hf f' hf' e1 e2
-      simp only [List.mem_cons, List.not_mem_nil, or_false] at hd
-      rcases hd with hd | hd <;> subst hd <;> rcases two t ht with h | h <;> subst h <;>
-        rcases two t' ht' with h | h <;> subst h <;>
-        simp only [c0, c1, List.mem_singleton] at hf hf' <;> subst hf <;> subst hf' <;>
-        first | (exact absurd e1 (by decide)) | (exact absurd rfl e2) | norm_num
-    · intro d hd d' hd' t ht f hf f' hf' e1 e2 e3
-      simp only [List.mem_cons, List.not_mem_nil, or_false] at hd hd'
-      rcases hd with hd | hd <;> subst hd <;> rcases hd' with hd' | hd' <;> subst hd' <;>
-        rcases two t ht with h | h <;> subst h <;>
-        simp only [c0, c1, List.mem_singleton] at hf hf' <;> subst hf <;> subst hf' <;>
-        first | (exact absurd e1 (by decide)) | (exact absurd rfl e3) | norm_num
+/-! ## end-to-end non-vacuity (audit witness)
+
+A concrete solver pair with `ExtOk ∧ ArgsortSorted` (diagonal assignment; insertion sort of all index
+pairs by cost) and a concrete four-frame history — late arrival listed first, an absence, a second
+late arrival listed in the middle, window 3, mean reduction — shown to be in `FW.InClass`, to which
+the greedy headline is applied.  (Supersedes the earlier example whose `ext` violated `ExtOk`.) -/
+
+namespace Witness
+def allPairs (M : List (List (Option Rat))) : List (Nat × Nat) :=
+  (List.range M.length).flatMap fun i => (List.range (M.headD []).length).map fun j => (i, j)
+def le (M : List (List (Option Rat))) (a b : Nat × Nat) : Prop := entry M a ≤ entry M b
+instance (M) : DecidableRel (le M) := fun a b => by unfold le; infer_instance
+instance (M) : Std.Total (le M) := ⟨fun _ _ => le_total _ _⟩
+instance (M) : IsTrans _ (le M) := ⟨fun _ _ _ => le_trans⟩
+def ext : Ext Rat := ⟨fun M => (List.range (min M.length (M.headD []).length)).map fun i => (i, i),
+  fun M => (allPairs M).insertionSort (le M)⟩
+theorem sorted : ArgsortSorted ext := fun M => List.pairwise_insertionSort (le M) (allPairs M)
+theorem head_len (M : List (List (Option Rat))) (k : Nat) (h : ∀ row ∈ M, row.length = k) (hne : M ≠ []) :
+    (M.headD []).length = k := by
+  cases M with
+  | nil => exact absurd rfl hne
+  | cons r rs => simpa using h r (by simp)
+theorem extOk : ExtOk ext := by
+  constructor
+  · intro M k h _
+    by_cases hne : M = []
+    · subst hne; simp [ext]; exact ⟨by simp, by simp, by simp⟩
+    · have hk := head_len M k h hne
+      simp only [ext, hk]
+      refine ⟨⟨?_, ?_, ?_⟩, by simp⟩
+      · simp [List.map_map, Function.comp_def]; exact List.nodup_range
+      · simp [List.map_map, Function.comp_def]; exact List.nodup_range
+      · intro p hp
+        simp only [List.mem_map, List.mem_range] at hp
+        obtain ⟨i, hi, rfl⟩ := hp
+        exact ⟨by omega, by omega⟩
+  · intro M k h e
+    simp only [ext, List.mem_insertionSort, allPairs, List.mem_flatMap, List.mem_range, List.mem_map]
+    by_cases hne : M = []
+    · subst hne; simp
+    · rw [head_len M k h hne]
+      constructor
+      · rintro ⟨i, hi, j, hj, rfl⟩; exact ⟨hi, hj⟩
+      · rintro ⟨h1, h2⟩; exact ⟨e.1, h1, e.2, h2, rfl⟩
+
+def cfg : Config Rat := ⟨3, 0, .greedy, .mean, Fixes.repaired⟩
+def score (a b : Int) : Rat := -((Int.natAbs (a - b) : Nat) : Rat)
+def who (a : Int) : Nat := if a < 30 then 0 else if a < 70 then 1 else 2
+def f0 : List (Int × Rat) := [(10,1)]
+def f1 : List (Int × Rat) := [(50,1),(11,1)]
+def f2 : List (Int × Rat) := [(51,1)]
+def f3 : List (Int × Rat) := [(12,1),(90,1),(52,1)]
+def s1 : FW Int := ⟨[⟨[10],[some 0]⟩],[0]⟩
+def s2 : FW Int := ⟨[⟨[10],[some 0]⟩, ⟨[50,11],[some 1, some 0]⟩],[0,1]⟩
+def s3 : FW Int := ⟨[⟨[10],[some 0]⟩, ⟨[50,11],[some 1, some 0]⟩, ⟨[51],[some 1]⟩],[0,1]⟩
+
+instance : DecidableEq Err := inferInstance
+theorem h0 : FW.step cfg ext score FW.empty f0 = .ok (s1, [some 0]) := by decide +kernel
+theorem h1 : FW.step cfg ext score s1 f1 = .ok (s2, [some 1, some 0]) := by decide +kernel
+theorem h2 : FW.step cfg ext score s2 f2 = .ok (s3, [some 1]) := by decide +kernel
+
+
+theorem rowOf (m : Nat) (cands : Nat → List Int) (cur : List (Int × Rat))
+    (h : ∀ d ∈ cur, ∀ t, t < m → ∀ t', t' < m → ∀ f ∈ cands t, ∀ f' ∈ cands t',
+      who f = who d.1 → who f' ≠ who d.1 → score d.1 f' < score d.1 f) :
+    ∀ d ∈ cur, ∀ t t', t < m → t' < m → ∀ f ∈ cands t, ∀ f' ∈ cands t',
+      who f = who d.1 → who f' ≠ who d.1 → score d.1 f' < score d.1 f :=
+  fun d hd t t' ht ht' => h d hd t ht t' ht'
+theorem c0 : SceneFrame who score cfg.thr (FW.empty : FW Int).cands (FW.empty : FW Int).tracks.length f0 :=
+  ⟨by decide +kernel, by decide +kernel, by decide +kernel, by decide +kernel, rowOf _ _ _ (by decide +kernel), by decide +kernel⟩
+theorem c1 : SceneFrame who score cfg.thr s1.cands s1.tracks.length f1 :=
+  ⟨by decide +kernel, by decide +kernel, by decide +kernel, by decide +kernel, rowOf _ _ _ (by decide +kernel), by decide +kernel⟩
+theorem c2 : SceneFrame who score cfg.thr s2.cands s2.tracks.length f2 :=
+  ⟨by decide +kernel, by decide +kernel, by decide +kernel, by decide +kernel, rowOf _ _ _ (by decide +kernel), by decide +kernel⟩
+theorem c3 : SceneFrame who score cfg.thr s3.cands s3.tracks.length f3 :=
+  ⟨by decide +kernel, by decide +kernel, by decide +kernel, by decide +kernel, rowOf _ _ _ (by decide +kernel), by decide +kernel⟩
+
+theorem inClass : FW.InClass cfg ext score who FW.empty [f0, f1, f2, f3] := by
+  refine ⟨c0, fun s' ids h => ?_⟩
+  rw [h0] at h; injection h with h; injection h with e1 e2; subst e1; subst e2
+  refine ⟨c1, fun s' ids h => ?_⟩
+  rw [h1] at h; injection h with h; injection h with e1 e2; subst e1; subst e2
+  refine ⟨c2, fun s' ids h => ?_⟩
+  rw [h2] at h; injection h with h; injection h with e1 e2; subst e1; subst e2
+  exact ⟨c3, fun _ _ _ => trivial⟩
+
+/-- end-to-end: the headline theorem applied to a concrete solver and a concrete history with
+    a late arrival, an absence and permuted listing order -/
+theorem endToEnd : ∃ s' outs owner,
+    run (FW.step cfg ext score) FW.empty [f0, f1, f2, f3] = Except.ok (s', outs) ∧
+      InjOn owner s'.tracks.length ∧
+      List.Forall₂ (FrameOwned who owner s'.tracks.length) [f0, f1, f2, f3] outs :=
+  identity_preserved_fw_greedy cfg rfl rfl ext extOk sorted score who [f0, f1, f2, f3] inClass
+/-- a solver pair meeting the **Hungarian** contract: brute-force minimiser + the sorted argsort -/
+noncomputable def extH : Ext Rat := ⟨bruteLsa, ext.argsort⟩
+
+theorem extH_ok : ExtOk extH :=
+  ⟨fun M k h _ => bruteLsa_valid M k h, extOk.argsort⟩
+
+theorem extH_optimal : LsaOptimal extH :=
+  fun M k h _ ms' hv hl => bruteLsa_optimal M k h ms' hv hl
+
+/-- `ExtOk ∧ LsaOptimal ∧ ArgsortSorted` are jointly satisfiable -/
+theorem solver_contracts_satisfiable : ∃ e : Ext Rat, ExtOk e ∧ LsaOptimal e ∧ ArgsortSorted e :=
+  ⟨extH, extH_ok, extH_optimal, sorted⟩
+
+def cfgH : Config Rat := ⟨3, 0, .hungarian, .mean, Fixes.repaired⟩
+
+theorem h0H : FW.step cfgH extH score FW.empty f0 = .ok (s1, [some 0]) := by
+  have : FW.step cfgH extH score FW.empty f0 = .ok (FW.init cfgH FW.empty f0) := rfl
+  rw [this]; decide +kernel
+
+theorem inClassH : FW.InClass cfgH extH score who FW.empty [f0, f1] := by
+  refine ⟨c0, fun s' ids h => ?_⟩
+  rw [h0H] at h; injection h with h; injection h with e1 e2; subst e1; subst e2
+  exact ⟨c1, fun _ _ _ => trivial⟩
+
+/-- the Hungarian headline instantiated: concrete (brute-force) solver, history with a late arrival
+    listed first (the second frame goes through `linear_sum_assignment`) -/
+theorem endToEndHungarian : ∃ s' outs owner,
+    run (FW.step cfgH extH score) FW.empty [f0, f1] = Except.ok (s', outs) ∧
+      InjOn owner s'.tracks.length ∧
+      List.Forall₂ (FrameOwned who owner s'.tracks.length) [f0, f1] outs :=
+  identity_preserved_fw_hungarian cfgH rfl rfl extH extH_ok extH_optimal score who [f0, f1] inClassH
+
+end Witness
 
 end SleapVerif.C10
